@@ -26,7 +26,7 @@ UNARY = ["negative", "absolute", "invert", "logical_not", "sqrt", "sign", "squar
 OPERATORS = {"+": operator.add, "-": operator.sub, "*": operator.mul, "/": operator.truediv, "//": operator.floordiv,
              "**": operator.pow, "&": operator.and_, "|": operator.or_, "^": operator.xor, "<": operator.lt, "<=": operator.le,
              "==": operator.eq, "!=": operator.ne, ">": operator.gt, ">=": operator.ge}
-UNARY_OPS = {"~": operator.invert, "neg": operator.neg}
+UNARY_OPS = {"~": operator.invert, "neg": operator.neg, "pos": operator.pos, "abs": abs}
 FLOAT_EXCLUDED = {"power", "floor_divide"}
 PYSCALARS = {"pyint": 3, "pyfloat": 2.5, "pybool": True}
 
